@@ -1672,6 +1672,26 @@ impl TransactionBuilder {
 
     fn validate_fee(&self) -> Result<(), JsError> {
         if let Some(fee) = &self.get_fee_if_set() {
+            // a fee request made after the fee was stored (set_fee / set_min_fee after add_change_if_needed) is not silently dropped
+            match &self.fee_request {
+                TxBuilderFee::Exactly(requested) => {
+                    if fee != requested {
+                        return Err(JsError::from_str(&format!(
+                            "Fee differs from the fee requested by set_fee. Requested: {}, Fee: {}",
+                            requested, fee
+                        )));
+                    }
+                }
+                TxBuilderFee::NotLess(requested) => {
+                    if fee < requested {
+                        return Err(JsError::from_str(&format!(
+                            "Fee is less than the minimum fee requested by set_min_fee. Requested: {}, Fee: {}",
+                            requested, fee
+                        )));
+                    }
+                }
+                TxBuilderFee::Unspecified => {}
+            }
             let min_fee = min_fee(&self)?;
             if fee < &min_fee {
                 Err(JsError::from_str(&format!(
